@@ -288,6 +288,15 @@ pub fn gen_session(prop: &str, seed: u64, profile: u8, faults: bool) -> Case {
             }
             class = 0;
         }
+        if rng.chance(1, 12) {
+            // a long game record (60..396 plies): whatever the engine derives from the length of the game so far
+            let n = *rng.pick(&[60u64, 99, 100, 101, 120, 199, 200, 201, 255, 256, 300, 396]) + rng.below(3);
+            let l = long_walk(&mut rng, &root, n.min(396));
+            if l.len() >= 50 {
+                pre = l;
+                class = class.max(1);
+            }
+        }
         case.push(GK::NewGame { root: root.clone(), pre });
         let turns = if profile == 0 { rng.range(1, 4) } else { rng.range(2, 8) };
         for t in 0..turns {
@@ -919,6 +928,35 @@ pub fn gen_c08(seed: u64, thorough: bool) -> Case {
         let cap: u64 = if thorough { 4_000_000 } else { 200_000 };
         case.params.max_polls = cap + 20_000;
         case.params.max_steps = cap * 3;
+        if rng.chance(1, 2) {
+            // a depth-limited search first, then - without `ucinewgame` - an unlimited one on a position that gives it
+            // something to do: the earlier limit is gone, the search goes on until it is stopped
+            let r0 = rng.pick(ROOTS);
+            let n0 = rng.below(5);
+            let pre0 = walk(&mut rng, &root_cmd(r0), n0);
+            case.push(GK::NewGame { root: root_cmd(r0), pre: pre0 });
+            case.push(GK::PosCur);
+            case.raw(format!("go depth {}", rng.range(1, max_depth_for(r0.class).min(3))));
+            case.push(GK::AwaitBest);
+            let nm = *rng.pick(&["startpos", "kiwipete", "italian", "sicilian-b", "perft4", "perft5", "perft6", "rook-endgame", "minor-endgame"]);
+            let r1 = ROOTS.iter().find(|x| x.name == nm).unwrap();
+            if rng.chance(2, 3) {
+                let n1 = rng.below(6);
+                let pre1 = walk(&mut rng, &root_cmd(r1), n1);
+                case.push(GK::NewGame { root: root_cmd(r1), pre: pre1 });
+            } else {
+                case.push(GK::Advance { best: true, replies: vec![rng.next() as u32] });
+            }
+            case.push(GK::PosCur);
+            case.raw(if rng.chance(1, 4) { "go" } else { "go infinite" });
+            case.push(GK::AfterPolls(rng.log_uniform(500, 20_000)));
+            case.raw("stop");
+            case.push(GK::AwaitBest);
+            case.raw("isready");
+            case.push(GK::AwaitReady);
+            case.raw("quit");
+            return case;
+        }
         let r = rng.pick(&tiny);
         case.push(GK::NewGame { root: root_cmd(r), pre: vec![] });
         case.push(GK::PosCur);
@@ -947,6 +985,10 @@ pub fn gen_c13(seed: u64, _thorough: bool) -> Case {
     if rng.chance(1, 4) {
         // GUIs with classical time controls add `movestogo N` to the clock parameters
         case.tags.push(format!("movestogo={}", *rng.pick(&[1u32, 1, 2, 5, 10, 20, 40])));
+    }
+    if Rng::new(seed, 0x5ea).chance(1, 6) {
+        // analysis GUIs restrict the root moves: `go searchmoves m1 m2 wtime ...` (tokens before the clock fields)
+        case.tags.push("searchmoves".into());
     }
     let r = if rng.chance(1, 5) {
         *rng.pick(&["single-reply", "single-reply-b", "mate-in-1", "mate-in-1-b", "mated", "stalemated"])
@@ -1602,10 +1644,10 @@ pub fn gen_c15(seed: u64, thorough: bool) -> Case {
         case.push(GK::PosCur);
         // half of the runs are left running long enough for the iteration depth to pass 200 on bare kings
         let run_len = if rng.chance(1, 2) { rng.range(cap / 2, cap) } else { rng.log_uniform(1_000, cap) };
-        if rng.chance(1, 2) {
-            case.raw("go infinite");
-        } else {
-            case.raw(format!("go depth {}", *rng.pick(&[2u64, 6, 12, 30, 64, 100, 120, 200, 255])));
+        match rng.below(6) {
+            0..=2 => case.raw("go infinite"),
+            3 | 4 => case.raw(format!("go depth {}", *rng.pick(&[2u64, 6, 12, 30, 64, 100, 120, 200, 255]))),
+            _ => case.push(GK::GoClock { own: 3_600_000, own_inc: 600_000, opp: rng.log_uniform(1, 3_600_000), opp_inc: 0 }),
         }
         case.push(GK::AfterPolls(run_len));
         case.raw("stop");
@@ -1734,6 +1776,9 @@ pub fn gen(prop: &str, seed: u64, thorough: bool) -> Case {
         let mut r = Rng::new(seed, 0xfe4);
         if r.chance(1, 5) {
             case.tags.push(format!("fenfields={}", r.range(4, 5)));
+        }
+        if r.chance(1, 8) {
+            case.tags.push("searchmoves".into());
         }
     }
     match case.mode {
